@@ -29,6 +29,7 @@ class StoreModel:
         self.gens = {}  # (class key, storage key) -> number of runs so far
         self.slots = {}  # slot -> dict(vid, model, mem: {obj: gen}, forced: set(obj))
         self.faults = {}
+        self.last_failed = set()  # objects whose latest run attempt failed
 
     def model(self, vid):
         if vid not in self.models:
@@ -83,11 +84,18 @@ class StoreModel:
         self.gens[ident] = gen + 1
         fault = self.faults[ti.key].pop(0) if self.faults.get(ti.key) else None
         if fault == 'raise':
+            self.last_failed.add(o)
             raise _ModelFault(f'{fn}:{fault}')
-        for tgt in m.requested_inputs(fn):
-            self._need(s, m, tgt, runs)
+        try:
+            for tgt in m.requested_inputs(fn):
+                self._need(s, m, tgt, runs)
+        except _ModelFault:
+            self.last_failed.add(o)
+            raise
         if fault is not None:
+            self.last_failed.add(o)
             raise _ModelFault(f'{fn}:{fault}')
+        self.last_failed.discard(o)
         if PERSISTED(kind):
             self.stored[o] = gen
         s['mem'][o] = gen
@@ -159,8 +167,9 @@ def get_world(desc):
 
 
 class Exec:
-    def __init__(self, desc, keep=False):
+    def __init__(self, desc, keep=False, records=False):
         self.desc = desc
+        self.records = records
         self.world = get_world(desc)
         self.world.rt.reset()
         self.data_dir = scratch.fresh('data')
@@ -272,6 +281,14 @@ class Exec:
         # the fault plan is an environment answer owned by the model: keep the real one in step with it so that one
         # divergence is reported once instead of cascading
         rt.faults = {k: list(v) for k, v in self.model.faults.items() if v}
+        if self.records and kind in ('value', 'cforce', 'tforce', 'new') and op[1] in self.slots:
+            rec = {}
+            for fn, t in self.slots[op[1]].tasks.items():
+                try:
+                    rec[fn] = {'run_info': t.run_info, 'log': t.log}
+                except Exception as e:  # noqa
+                    rec[fn] = {'error': f'{type(e).__name__}: {e}'}
+            obs['records'] = rec
         obs['runs'] = [r[0] for r in rt.log[mark:]]
         obs['run_keys'] = [[r[0], r[1]] for r in rt.log[mark:]]
         # identity of what ran, independent of which of several names a shared task object carries
@@ -361,10 +378,10 @@ def _shallow(o):
     return out
 
 
-def run_history(desc, hist, judge, keep=False):
+def run_history(desc, hist, judge, keep=False, records=False):
     """Replay `hist` on a fresh store; call judge(step index, obs, exp, exec) after every step.
     -> (violations, canon of final state, observation vector digest)"""
-    ex = Exec(desc, keep=keep)
+    ex = Exec(desc, keep=keep, records=records)
     out = []
     try:
         for i, op in enumerate(hist):
@@ -433,7 +450,7 @@ def _expand(args):
     for hist in hists:
         for op in alphabet(desc, hist, spec):
             h2 = hist + [op]
-            vs, c, ov = run_history(desc, h2, judge(desc, spec))
+            vs, c, ov = run_history(desc, h2, judge(desc, spec), records=bool(spec.get('records')))
             out.append((h2, c, ov, [v.to_json() for v in vs]))
     return out
 
